@@ -6,16 +6,17 @@ from .ir import E, walk_stmts, walk_expr, all_exprs, stmt_exprs, show
 from .paths import Engine, Rule, path_of
 
 META = {
-    'explanation': 'Typed-AST and E-PATH rules on clock::SystemClock::{getNow, setNow, syncNow}: the catch-up loop compares a 16-bit '
-                   'modular difference (both the truncation of clockMillis() and the difference are converted to the width of '
-                   'mPrevMillis), the loop threshold equals the mPrevMillis step and is paired with +1 second, the invalid/sentinel '
-                   'guards come first, every accepted sync re-bases the millisecond reference, and the seconds counter is only '
-                   'incremented outside syncNow.',
-    'decided': 'modular width discipline of the catch-up loop; 1000 ms <-> 1 s step pairing; sentinel guards; every path of syncNow '
-               'that accepts a value leaves (mEpochSeconds == value, mPrevMillis == clockMillis() of that call, mIsInit), where '
-               '"already holds the value" implies initialised because a fresh clock holds the sentinel (in-class initialisers '
-               'folded from the AST); monotone writes outside syncNow',
-    'not_decided': 'the equation T + floor((m - m0)/1000) over polling schedules (gaps up to 64,536 ms) as a timing property',
+    'explanation': 'E-SEQ (typed): clock::SystemClock::{getNow, setNow, syncNow} are interpreted through their real bodies, with '
+                   'fixed-width wrap at every declaration, cast and store, on a SystemClock object built from the in-class '
+                   'initialisers folded from the AST; clockMillis() is the only abstraction (the value of the schedule). Schedules: '
+                   'set at counter m0, then polls at stated gaps (1 ms .. 64,535 ms, mixed), m0 placed so that the counter crosses '
+                   '2^16 and 2^32 during the schedule; re-set scenarios (same value, other value, after idling, sentinel); the '
+                   'backup-clock path of setNow. A loop that does not terminate on a schedule is a violation. Plus typed-AST rules '
+                   'for the width of the millisecond reference and for monotone writes outside syncNow.',
+    'decided': 'on every stated schedule each reading equals T + floor((m - m0) / 1000); an unset clock reads the sentinel; setting '
+               'the sentinel changes nothing; a repeated set re-bases the millisecond reference; setNow behaves like syncNow and '
+               'writes the backup clock; mPrevMillis is an unsigned 16-bit field; monotone writes outside syncNow',
+    'not_decided': 'schedules outside the stated family (gaps of 64,536 ms or more are outside the documented contract); real time',
     'assumptions': ['clang 14 parser (host: unsigned long is 64-bit; the rule looks only at the 16-bit conversions)'],
 }
 
